@@ -2,6 +2,7 @@ import GormModel.Drv.Util
 import GormModel.Model.Scan
 import GormModel.Model.SchemaAttrs
 import GormModel.Model.Serializer
+import GormModel.Model.DestKey
 import GormModel.Gen.BackfillFacts
 import GormModel.Gen.SchemaDeclFacts
 open Lean
@@ -338,6 +339,13 @@ def handleC03 (op : String) (args : Array Json) : Option Json := do
         | .error _ => Json.str "load-error"
         | .ok s => resJ (setField k k.zero s)
     some (Json.arr #[Json.bool (representable k fv), r])
+  | "c03.destkey" =>
+    -- ["c03.destkey", [[column, value]…]] (members of Schema.PrimaryFields with the value the destination holds, 0 = zero)
+    --   → the conditions [[column, value]…] of the destination-key block
+    let key ← (← jArr? (arg args 1)).toList.mapM (fun e => do
+      let a ← jArr? e
+      some ((← jStr? (arg a 0)), (← jNat? (arg a 1))))
+    some (Json.arr ((destKeyConds key).map (fun p => Json.arr #[Json.str p.1, natJ p.2])).toArray)
   | "c03.facts" =>
     -- regenerated facts the back-fill model follows (extract/gen_c03.go)
     some (Json.mkObj [("guardsKeyKind", Json.bool Gen.backfillGuardsKeyKind), ("mapsSkipPreset", Json.bool Gen.backfillMapsSkipPreset),
